@@ -241,10 +241,19 @@ def _c04(prop, cfg, sdef, history, exact):
     sim_cur = None       # who would run next, tracked only while the machine is not executing
     engaged = False
     last_ctl = None
+    scribbled = False    # a dashboard wrote the current_state topic: what it shows is the dashboard's until further notice
     for h in history:
         op = h["op"]
         k = op[0]
         after = h["after"]
+        if k == "ntcs":
+            scribbled = True
+            continue
+        if scribbled and after is not None:
+            # only is_executing is checked by these model-independent rules from here on
+            after = (after[0], "", "") if not after[0] else after
+            if k == "restart":
+                scribbled = False
         if k == "restart":
             prev_exec, sim_cur, engaged, last_ctl = False, None, False, None
             if after != (False, "", ""):
@@ -296,7 +305,7 @@ def _c04(prop, cfg, sdef, history, exact):
                 want = act[1] if (act is not None and act[0] == "next" and act[1] in sdef) else c[1]
                 if after[0] is not True:
                     _fail(prop, "not_executing_while_running", h, f"{c[1]} ran under engage() but is_executing is {after[0]} after the iteration")
-                if after[1] != want or after[2] != want:
+                if not scribbled and (after[1] != want or after[2] != want):
                     _fail(prop, "current_state_wrong", h, f"current_state should name {want!r}, got attr={after[1]!r} NT={after[2]!r}")
         prev_exec = bool(after[0]) if after else False
         if not prev_exec:
